@@ -129,7 +129,7 @@ __CPROVER_requires(OPTLEN_ZERO || g_opts.supportedVersionsLen >= 1)     /* the t
 __CPROVER_requires(c07_list_inv(g_opts.supportedVersions, g_opts.supportedVersionsLen, v_tls_any))
 POSTS(ENSURES_CLAUSE)
 CANARY_CLAUSE(__CPROVER_return_value != MATRIXSSL_SUCCESS)
-__CPROVER_assigns(g_ssl.supportedVersions, __CPROVER_object_whole(g_ssl.supportedVersionsPriority), g_ssl.supportedVersionsPriorityLen,
+__CPROVER_assigns(g_ssl.supportedVersions, g_ssl.supportedVersionsPriority, g_ssl.supportedVersionsPriorityLen,
                   g_ssl.activeVersion, g_ssl.hsState)
 ;
 
@@ -151,7 +151,7 @@ struct inputs nondet_in(void);
 #endif
 DECL_SNAPSHOT(ssl_t, g_ssl);
 
-/* fields of g_ssl left at zero: everything but flags (only the SERVER bit is
+/* fields of g_ssl not assigned here (havocked by DFCC in the cbmc run, zero in the native replay): everything but flags (only the SERVER bit is
    read) and tls13CiphersuitesEnabledClient; g_opts: everything but the version
    list and versionFlag */
 HARNESS_BEGIN
